@@ -71,10 +71,11 @@ Definition chk_C17 (fam : bytes) (c o : value) : bool :=
   else if beq fam (B "lauth_unique") then
     match c, o with
     | VL [VI n], VL [VI d] => d =? n
+    | VL [VI n; VI p], VL [VI d; VI dp] => (d =? n) && (dp =? p)      (* and the first tokens of p separate processes differ too *)
     | _, _ => false
     end
   else true.
 
 (* the model for lauth_unique: n successive instances have n distinct tokens *)
 Definition run_lauth_unique (c : value) : value :=
-  match c with VL [VI n] => VL [VI n] | _ => verr end.
+  match c with VL [VI n] => VL [VI n] | VL [VI n; VI p] => VL [VI n; VI p] | _ => verr end.
